@@ -11,8 +11,10 @@ import GoImap.Lemmas.FramingDepth
     * total_and_closed       for every stream and every cut point the run ends with the epilogue of
                              Conn.serve (`close`: session.Close, removal from Server.conns, conn.Close)
                              exactly once and as the last event, or the model gave up on a command
-                             outside its table (`opaque`) without closing; the command loop never runs
-                             out of fuel (the model is total).
+                             outside its table (`opaque`) without closing
+    * no_fuel_event          no loop of the model (command loop, ENABLE arguments, APPEND flag list,
+                             search keys with NOT/OR/list recursion) ever exhausts its fuel: the model is
+                             total on every stream
     * buffered_literal_cap   every literal buffered in memory has at most 4096 octets
     * append_cap             every APPEND literal the server accepts has at most 104857600 octets …
     * append_refused_unread  … and a larger one is refused right after its header: no octet of the
@@ -22,9 +24,7 @@ import GoImap.Lemmas.FramingDepth
     * legacy_depth_unbounded before the repair of F08 the NOT chain NOT^n ALL drove readSearchKey n+1
                              deep, for every n (the counterexample to depth_bounded for Legacy)
     * literal_buffers_at_most_4096, raw_line_within_input   function-level facts used by the above
-  Not proved (validated by the tie and the oracle on every run): the inner loops of the model
-  (ENABLE arguments, flag lists, search keys) never exhaust their fuel — the driver reports a `fuel`
-  event as a disagreement; no panic report in the real server's log, Close() count, tracked
+  Not proved (validated by the tie and the oracle on every run): no panic report in the real server's log, Close() count, tracked
   connections and goroutine count of the real server (runtime facts), survival of the depth probes.
 -/
 namespace GoImap.C06
@@ -77,6 +77,16 @@ theorem raw_line_within_input (fx : Fixes) (inp line : List Nat) (long : Bool) (
       · simp only [Option.some.injEq, Prod.mk.injEq] at h
         split at h <;> omega
 
+/-- The model is total: no loop of it — the command loop, the ENABLE arguments, the flag list of
+    APPEND, the search keys with their NOT/OR/list recursion — ever runs out of the fuel it is
+    given (input length + 2 for the command loop, input length + 1 for the flat loops, twice the
+    input length + 8 for the search-key recursion), for any configuration and any stream. -/
+theorem no_fuel_event (cfg : Cfg) (inp : List Nat) (n : Nat) : Event.fuel n ∉ serve cfg inp := by
+  intro h
+  rcases serve_good cfg inp _ h with h0 | hg
+  · cases h0
+  · exact hg
+
 /-- A literal is buffered in memory only if it is at most 4096 octets: for every configuration
     (LITERAL+ or not, any state) and every client stream. -/
 theorem buffered_literal_cap (cfg : Cfg) (inp : List Nat) (n : Nat)
@@ -118,12 +128,12 @@ theorem depth_bounded (cfg : Cfg) (inp : List Nat) (hfix : cfg.fx.depth = true) 
     nothing. The command loop never runs out of fuel. -/
 theorem total_and_closed (cfg : Cfg) (inp : List Nat) (k : Nat) :
     let evs := serve cfg (inp.take k)
-    Event.fuel 0 ∉ evs ∧
+    (∀ n, Event.fuel n ∉ evs) ∧
     ((evs.getLast? = some .close ∧ evs.count .close = 1) ∨
      (Event.opaque ∈ evs ∧ Event.close ∉ evs)) := by
   intro evs
   have hgood := serve_good cfg (inp.take k)
-  refine ⟨fun h => ?_, ?_⟩
+  refine ⟨fun n h => ?_, ?_⟩
   · rcases hgood _ h with h0 | hg
     · cases h0
     · exact hg
